@@ -195,7 +195,14 @@ def run(tier, seed, replay=None):
                        'covered by the differential search', 'single symbol, no liquidation, as the property says']
     from translator import gen_all
     ok, msgs = gen_all.generate()
+    msgs = gen_all.relevant(msgs, ['candle', 'backtest', 'simidx']); ok = not msgs
     res.oblige('translator regenerated kernels, read lists, execution tests and chunk length from /repo', ok, '\n'.join(msgs))
+    from translator import fastshape
+    try:
+        fastshape.check(__import__('os').environ.get('VERIF_REPO', '/repo')); fs_ok, fs_msg = True, ''
+    except (fastshape.Untranslatable, OSError, SyntaxError) as e:
+        fs_ok, fs_msg = False, str(e)
+    res.oblige('the fast simulator has the modelled shape (chunk edge normalised; the chunk matcher walks and sorts along path candles)', fs_ok, fs_msg)
     C.standard_proof_step(res, 'Props.C12', ['C12_path_candles_are_the_normal_simulators', 'C12_normalisation_reads_only_the_previous_close', 'C12_step_divides_every_timeframe', 'C12_windows_coincide', 'C12_no_window_inside_chunk',
                                              'C12_executions_coincide', 'C12_no_execution_inside_chunk', 'C12_single_candidate_chunk'],
                           ['theories/Props/C12.vo', 'theories/Run/C12Run.vo'])
